@@ -93,6 +93,37 @@ def one_case(ctx, groups, cfg, gm, subjects, arrays, log_times, src, n_aggs=1, s
         if fails:
             ctx.violation("C18 violated: " + fails[0], inp, impl=fails[:3], key={"kind": "roundtrip"})
             return
+        # ---- the loaded object is used the way callers use it (summaries built on the returned columns, across-group lists, the
+        # printed overview), then everything is read again: what the loader returns for a subject is still what was recorded
+        from panoptica.panoptica_statistics import ValueSummary
+        def use(f):
+            try:
+                with quiet(), np.errstate(all="ignore"):
+                    f()
+            except Exception as e:          # e.g. the summary of a column without any finite value
+                ctx.count("summary_use_raised." + type(e).__name__)
+        for g in gnames:
+            for m in st.metricnames:
+                col = st.get(g, m)
+                if col and all(v is not None for v in col):
+                    use(lambda: ValueSummary(col))
+                use(lambda: st.get_summary(g, m))
+        for m in list(st.metricnames)[:4]:
+            use(lambda: st.get_across_groups(m))
+        use(st.get_summary_dict)
+        for s in subjects:
+            with quiet():
+                one = st.get_one_subject(s)
+            for g in gnames:
+                for m in st.metricnames:
+                    if m == "computation_time":
+                        continue
+                    want, got = classify(expected[s][g].get(m)), one[g][m]
+                    if not ((want is None and got is None) or (want is not None and got is not None and float(got) == want)):
+                        ctx.violation(f"C18 violated: after summaries were computed from the loaded statistic, the value of {m} for subject {s!r}, group {g!r} reads {got!r}; "
+                                      f"the result reported {expected[s][g].get(m)!r}", inp, key={"kind": "roundtrip-after-use"})
+                        return
+        ctx.count("read_again_after_summaries")
         # ---- correspondence with the Lean table model
         with builtins.open(out, newline="") as f:
             rows = list(csv.reader(f, delimiter="\t"))
